@@ -567,7 +567,11 @@ var c35Soup = []string{"select", "from", "join", "left", "on", "where", "group b
 	"within", "scan", "full", "explain", "show", "topics", "partitions", "describe", "and", "=", ">=", "<=", "_partition", "_offset", "_ts", "desc",
 	"*", ",", "(", ")", ";", "t", "orders", "1", "-1", "o._key", "p._key", "ſelect", "laſt", "ſcan", "xſelect", "K", "Ⱥ", "İ", "\xff", "'", "as", "count(*)"}
 
+// c35LastSegs: the segments of the structured statement c35GenText built last (nil otherwise)
+var c35LastSegs []c35Seg
+
 func c35GenText(r *vRand) (text string, variant string, kind string, odd bool) {
+	c35LastSegs = nil
 	switch r.Intn(12) {
 	case 0: // keyword soup
 		n := r.Range(1, 14)
@@ -616,6 +620,7 @@ func c35GenText(r *vRand) (text string, variant string, kind string, odd bool) {
 		return string(bs), "", "mutated", true
 	}
 	variant = c35Join(b.segs, c35Recase(r))
+	c35LastSegs = b.segs
 	return text, variant, kind, b.odd
 }
 
@@ -660,8 +665,40 @@ func c35Oracle(text, variant string, odd bool) (key, what string) {
 	return "", ""
 }
 
+// c35Stream derives truncated and locally damaged texts from one structured statement:
+// every prefix at a segment (token / white space) boundary in three keyword cases with
+// and without a trailing ';' / white space; for a sample every byte prefix; every single
+// token deleted, duplicated and swapped with its neighbour. visit is called on each.
+func c35Stream(segs []c35Seg, r *vRand, visit func(text, stream string)) {
+	upper := func(w string) string { return strings.ToUpper(w) }
+	tails := []string{"", ";", " ", " ;", ";;", "\n"}
+	for k := 1; k <= len(segs); k++ {
+		visit(c35Join(segs[:k], nil), "prefix")
+		visit(c35Join(segs[:k], upper)+";", "prefix")
+		visit(c35Join(segs[:k], c35Recase(r))+tails[r.Intn(len(tails))], "prefix")
+	}
+	text := c35Join(segs, nil)
+	if r.Chance(15) {
+		for i := 0; i <= len(text); i++ {
+			visit(text[:i], "byte-prefix")
+		}
+	}
+	toks := strings.Fields(text)
+	for i := range toks {
+		del := append(append([]string(nil), toks[:i]...), toks[i+1:]...)
+		visit(strings.Join(del, " "), "token-op")
+		dup := append(append(append([]string(nil), toks[:i+1]...), toks[i]), toks[i+1:]...)
+		visit(strings.Join(dup, " "), "token-op")
+		if i+1 < len(toks) {
+			sw := append([]string(nil), toks...)
+			sw[i], sw[i+1] = sw[i+1], sw[i]
+			visit(strings.Join(sw, " "), "token-op")
+		}
+	}
+}
+
 func TestVerifC35(t *testing.T) {
-	rep := vNewReport("C35", "query texts given to the real sql.Parse under recover: structured statements (show/describe/select/explain with joins, filters, group/order/limit/last/tail/within/scan clauses) whose identifiers, white space and clause positions carry length-changing letters (U+023A, U+212A, U+0130, U+017F ...), multi-byte white space and invalid UTF-8; keyword soup; byte mutations; random bytes; each structured query also as a keyword-case variant. Non-trivial = the text reaches parseSelect/parseExplain (first token select/explain) or contains a non-ASCII byte; distinct = distinct text")
+	rep := vNewReport("C35", "query texts given to the real sql.Parse under recover: structured statements (show/describe/select/explain with joins, filters, group/order/limit/last/tail/within/scan clauses) whose identifiers, white space and clause positions carry length-changing letters (U+023A, U+212A, U+0130, U+017F ...), multi-byte white space and invalid UTF-8; keyword soup; byte mutations; random bytes; each structured query also as a keyword-case variant; and from every structured statement its truncations and local damage: every prefix at a token / white-space boundary in three keyword cases with and without trailing ';' / white space, every byte prefix for a sample, every single token deleted / duplicated / swapped with its neighbour (all parsed under recover; two per statement and every panicking one also compared with the model). Non-trivial = the text reaches parseSelect/parseExplain (first token select/explain) or contains a non-ASCII byte; distinct = distinct text")
 	var coq, jsons []string
 	runOne := func(cs c35Case, kind string) {
 		text, variant := string(cs.Q), string(cs.V)
@@ -724,6 +761,9 @@ func TestVerifC35(t *testing.T) {
 			"SELECT * FROM orders o JOIN payments p ON o._key = p._key WITHIN 10m LAST 1h;",
 			"select count(*) as n, json_value(_value, '$.a') from orders where _partition = 1 and _offset >= 5 group by _key order by _ts desc limit 10",
 			"explain explain select * from t", "explain show topics", "show partitions from", "describe", ";", "",
+			"SELECT * FROM t WHERE _offset >=", "select * from t where _offset >=;", "SELECT * FROM t WHERE _partition =", "select * from t where _partition = ;",
+			"select * from t where _offset", "select * from t where _partition", "select * from t where", "select * from t where _offset >= 5 and", "select * from t where _offset >= 5 and _partition",
+			"show partitions", "show", "select * from t left", "select * from t left join", "select * from a join b on", "select * from t group by", "select * from t order by", "select * from t order",
 			"select from t", "select * from", "select * from t join", "select * from a join b on a._key", "select * from a left join b",
 		}
 		for _, s := range corpus {
@@ -754,6 +794,28 @@ func TestVerifC35(t *testing.T) {
 				rep.Hist("keyword-case-variant-checked")
 			}
 			runOne(c35Case{Q: []byte(text), V: []byte(variant), Odd: odd}, kind)
+			if segs := c35LastSegs; segs != nil {
+				// truncations and local damage of this statement: all parsed under recover; a
+				// sample (and every panicking text) also goes through the model comparison
+				sr := r.Fork()
+				var pool []string
+				panicked := map[string]bool{}
+				c35Stream(segs, sr, func(tx, stream string) {
+					rep.Evaluations++
+					rep.Hist("stream:" + stream)
+					if o := c35Parse(tx); o.panicked {
+						if !panicked[o.panicMsg] {
+							panicked[o.panicMsg] = true
+							runOne(c35Case{Q: []byte(tx), Odd: true}, "stream-panic")
+						}
+						return
+					}
+					pool = append(pool, tx)
+				})
+				for k := 0; k < 2 && len(pool) > 0; k++ {
+					runOne(c35Case{Q: []byte(pool[sr.Intn(len(pool))]), Odd: true}, "stream-sample")
+				}
+			}
 		}
 	}
 	rep.Cases("C35", "From KS Require Import lib.Base model.SqlParse corr.SqlParseCorr.", "case", "check_case", coq, jsons)
